@@ -34,7 +34,15 @@ Theorem C03_no_deadlock : forall kind s0 starts w effs x,
   exists i w' effs', step kind s0 w i = Some (w', effs').
 Proof. exact no_deadlock. Qed.
 
+(* stronger: the enabled step is a handler invocation for an event of THAT execution: its queued event can be delivered,
+   or the timer its held event waits for can fire (timers are unique: a second invariant) *)
+Theorem C03_running_execution_is_carried_forward : forall kind s0 starts w effs x,
+  reachable kind s0 starts w effs -> get_status x (statuses w) = Some Running ->
+  exists i w' effs', step kind s0 w i = Some (w', effs') /\ moves w i x.
+Proof. exact running_execution_can_move. Qed.
+
 Print Assumptions C03_ack_after_consequences.
 Print Assumptions C03_acked_at_most_once.
 Print Assumptions C03_carrier_conservation.
 Print Assumptions C03_no_deadlock.
+Print Assumptions C03_running_execution_is_carried_forward.
